@@ -2,6 +2,7 @@ package polynomial
 
 import (
 	"fmt"
+	"math/big"
 
 	"github.com/tuneinsight/lattigo/v6/circuits/common/polynomial"
 	"github.com/tuneinsight/lattigo/v6/core/rlwe"
@@ -110,5 +111,9 @@ func (c CoefficientGetter) GetVectorCoefficient(pol polynomial.PolynomialVector,
 
 // GetSingleCoefficient returns the k-th coefficient of Polynomial as the type *[bignum.Complex].
 func (c CoefficientGetter) GetSingleCoefficient(pol polynomial.Polynomial, k int) (value *bignum.Complex) {
-	return pol.Coeffs[k]
+	// An absent coefficient (nil in a bignum.Polynomial) is zero.
+	if value = pol.Coeffs[k]; value == nil {
+		value = &bignum.Complex{new(big.Float), new(big.Float)}
+	}
+	return
 }
